@@ -153,6 +153,7 @@ structure Req where
   target : Bytes
   viaDic : Bool
   follow : Bool
+  times : Nat := 1
   headers : List (Bytes × Bytes)
   kind : String
   body : Bytes
@@ -163,11 +164,14 @@ def reqOf : List String → Option (Req × List String)
     | some m, some t, some (hs, rest) =>
       let viaDic := fl.startsWith "D"
       let follow := (fl.drop 1).toString.startsWith "F"
+      let times := match (fl.drop 2).toString.toNat? with
+        | some k => if k ≥ 1 ∧ k ≤ 9 then k else 1
+        | none => 1
       match rest with
-      | "n" :: rest => some ({ method := m, target := t, viaDic, follow, headers := hs, kind := "n", body := [] }, rest)
+      | "n" :: rest => some ({ method := m, target := t, viaDic, follow, times, headers := hs, kind := "n", body := [] }, rest)
       | k :: b :: rest =>
         if k ∈ ["b", "t", "j", "f", "u"] then
-          (bodyOf b).map fun x => ({ method := m, target := t, viaDic, follow, headers := hs, kind := k, body := x }, rest)
+          (bodyOf b).map fun x => ({ method := m, target := t, viaDic, follow, times, headers := hs, kind := k, body := x }, rest)
         else none
       | _ => none
     | _, _, _ => none
@@ -391,7 +395,9 @@ def step (st : St) (ts : List String) : St × String :=
         let isJson := match p.kind with
           | .json => true
           | _ => false
-        (st, obsOrDash q mark ++ " | " ++ clientObs resp isJson)
+        -- the same HttpRequest object passed `times` times to Http::request: every time the same exchange
+        let one := obsOrDash q mark ++ " | " ++ clientObs resp isJson
+        (st, " || ".intercalate (List.replicate r.times one))
       | _ => (st, "bad-op")
     | none => (st, "bad-op")
   | "cwire" :: rest =>
